@@ -61,6 +61,13 @@ def check_redefine_keyword(token):
         )
 
 
+def match_bound_identifier(lexer):
+    # the name of a loop variable or of an import: like def, it cannot be NULL
+    if lexer.hasNext() and lexer.peek().type == "identifier":
+        check_redefine_keyword(lexer.peek())
+    return lexer.matchIdentifier()
+
+
 def check_expected_identifier(token):
     if token.type != "identifier":
         raise CklSyntaxError(
@@ -200,13 +207,13 @@ def parse_statement(lexer, toplevel=False):
                 symbol = lexer.matchIdentifier()
                 symbolname = symbol
                 if lexer.matchIf("as", "keyword"):
-                    symbolname = lexer.matchIdentifier()
+                    symbolname = match_bound_identifier(lexer)
                 symbols.append((symbol, symbolname))
                 if not lexer.peekn(1, "]", "interpunction"):
                     lexer.match(",", "interpunction")
             lexer.match("]", "interpunction")
         elif lexer.matchIf("as", "keyword"):
-            name = lexer.matchIdentifier()
+            name = match_bound_identifier(lexer)
         return NodeRequire(modulespec, name, unqualified, symbols, pos)
 
     if lexer.matchIf("def", "keyword"):
@@ -296,6 +303,7 @@ def parse_statement(lexer, toplevel=False):
             while not lexer.peekn(1, "]", "interpunction"):
                 token = lexer.next()
                 check_expected_identifier(token)
+                check_redefine_keyword(token)
                 identifiers.append(token.value)
                 if not lexer.peekn(1, "]", "interpunction"):
                     lexer.match(",", "interpunction")
@@ -307,6 +315,7 @@ def parse_statement(lexer, toplevel=False):
         else:
             token = lexer.next()
             check_expected_identifier(token)
+            check_redefine_keyword(token)
             identifiers.append(token.value)
         lexer.match("in", "keyword")
         what = "values"
@@ -1137,7 +1146,7 @@ def parse_list_literal(lexer, token):
     else:
         expr = parse_expression(lexer)
         if lexer.matchIf("for", "keyword"):
-            identifier = lexer.matchIdentifier()
+            identifier = match_bound_identifier(lexer)
             lexer.match("in", "keyword")
             what = None
             if lexer.matchIf("keys", "identifier"):
@@ -1148,7 +1157,7 @@ def parse_list_literal(lexer, token):
                 what = "entries"
             listExpr = parse_or_expr(lexer)
             if lexer.matchIf("for", "keyword"):
-                identifier2 = lexer.matchIdentifier()
+                identifier2 = match_bound_identifier(lexer)
                 lexer.match("in", "keyword")
                 what2 = None
                 if lexer.matchIf("keys", "identifier"):
@@ -1173,7 +1182,7 @@ def parse_list_literal(lexer, token):
                 lexer.match("]", "interpunction")
                 return deref_or_invoke(lexer, comprehension)
             elif lexer.matchIf(["also", "for"], "keyword"):
-                identifier2 = lexer.matchIdentifier()
+                identifier2 = match_bound_identifier(lexer)
                 lexer.match("in", "keyword")
                 what2 = None
                 if lexer.matchIf("keys", "identifier"):
@@ -1226,7 +1235,7 @@ def parse_set_literal(lexer, token):
     else:
         expr = parse_expression(lexer)
         if lexer.matchIf("for", "keyword"):
-            identifier = lexer.matchIdentifier()
+            identifier = match_bound_identifier(lexer)
             lexer.match("in", "keyword")
             what = None
             if lexer.matchIf("keys", "identifier"):
@@ -1237,7 +1246,7 @@ def parse_set_literal(lexer, token):
                 what = "entries"
             listExpr = parse_or_expr(lexer)
             if lexer.matchIf("for", "keyword"):
-                identifier2 = lexer.matchIdentifier()
+                identifier2 = match_bound_identifier(lexer)
                 lexer.match("in", "keyword")
                 what2 = None
                 if lexer.matchIf("keys", "identifier"):
@@ -1262,7 +1271,7 @@ def parse_set_literal(lexer, token):
                 lexer.match(">>", "interpunction")
                 return deref_or_invoke(lexer, comprehension)
             elif lexer.matchIf(["also", "for"], "keyword"):
-                identifier2 = lexer.matchIdentifier()
+                identifier2 = match_bound_identifier(lexer)
                 lexer.match("in", "keyword")
                 what2 = None
                 if lexer.matchIf("keys", "identifier"):
@@ -1315,7 +1324,7 @@ def parse_map_literal(lexer, token):
         lexer.match("=>", "interpunction")
         value = parse_expression(lexer)
         if lexer.matchIf("for", "keyword"):
-            identifier = lexer.matchIdentifier()
+            identifier = match_bound_identifier(lexer)
             lexer.match("in", "keyword")
             what = None
             if lexer.matchIf("keys", "identifier"):
